@@ -21,9 +21,11 @@ JudgeOne(i) ==
       u == IF l1.st = "ok" THEN UnpackOf(f, l1.out) ELSE [st |-> "none", fs |-> f]
       l1rt == [st |-> u.st, tree |-> SubTree(u.fs, MCOut)]
       race == IF "race" \in DOMAIN o THEN o.race ELSE FALSE
+      \* the watchdog's names for what the model calls diverge (stack exhaustion or no return) and block (no return)
+      ost == IF l1.st = "diverge" /\ o.st \in {"crash", "hang"} THEN "diverge" ELSE IF l1.st = "block" /\ o.st = "hang" THEN "block" ELSE o.st
   IN PrintT("@@" \o ToJson([fam |-> "judge", idx |-> i,
-        same |-> (o.st = l1.st /\ (l1.st = "ok" => o.out = l1.out /\ RtOf(o) = l1rt)),       \* observation = L1 prediction
-        v |-> Verdict(f, opts, o.rules, o.st, o.out, o.meta, RtOf(o), l1)
+        same |-> (ost = l1.st /\ (l1.st = "ok" => o.out = l1.out /\ RtOf(o) = l1rt)),       \* observation = L1 prediction
+        v |-> Verdict(f, opts, o.rules, ost, o.out, o.meta, RtOf(o), l1)
               @@ [c16 |-> ~race /\ o.st = canon.st /\ (canon.st = "ok" => o.out = canon.out),
                   w16 |-> (IF race THEN {"data-race"} ELSE {}) \cup (IF o.st # canon.st THEN {"status:" \o o.st \o "/" \o canon.st} ELSE {})
                           \cup (IF canon.st = "ok" /\ o.st = "ok" /\ o.out # canon.out THEN {"entries-differ-from-canonical"} ELSE {}),
